@@ -17,7 +17,12 @@ type opFunc func(a []string) string
 
 var ops = map[string]opFunc{}
 
-func registerOp(name string, f opFunc) { ops[name] = f }
+func registerOp(name string, f opFunc) {
+	if _, dup := ops[name]; dup {
+		panic("operation registered twice: " + name)
+	}
+	ops[name] = f
+}
 
 // Gen is handed to every generator: one PRNG, an emit function, the tier.
 type Gen struct {
@@ -36,7 +41,12 @@ type genFunc func(g *Gen)
 
 var gens = map[string]genFunc{}
 
-func registerGen(name string, f genFunc) { gens[name] = f }
+func registerGen(name string, f genFunc) {
+	if _, dup := gens[name]; dup {
+		panic("generator registered twice: " + name)
+	}
+	gens[name] = f
+}
 
 func runOne(line string) (res string) {
 	defer func() {
